@@ -2,8 +2,8 @@ SPECIFICATION Spec
 CONSTANTS
   VsCases <- NoCases
   SdCases <- NoCases
-  HlCases <- HlSet
-  BtCases <- NoCases
+  HlCases <- NoCases
+  BtCases <- BtSet
   CpCases <- NoCases
   MaxOps = 2
   KeepHist = TRUE
